@@ -65,12 +65,27 @@ ApplyRows(u, terms, sub, msk, plc, D, nc) ==
           LET S[t \in 0..Len(tr)] == IF t = 0 THEN Zero ELSE
                 AddRot(S[t-1], u.e[msk[i-1] + plc[tr[t][1]-1] + 1][j], tr[t][2], tr[t][3])
           IN S[Len(tr)]]))])
-ApplyGate(uu, gg, ws, n) == Bind2(uu, gg, LAMBDA u, g :
+\* dense variant (measured faster for H <= 8, where the unrolled product is cheap)
+ApplyRowsDense(u, g, sub, msk, plc, D, Q, nc) ==
+  TLCEval([i \in 1..D |->
+     TLCEval([j \in 1..nc |->
+        LET S[a \in 0..Q] == IF a = 0 THEN Zero ELSE
+              LET ge == g.e[sub[i-1]+1][a] IN
+              IF ge = Zero THEN S[a-1] ELSE Add(S[a-1], EMul(ge, u.e[msk[i-1] + plc[a-1] + 1][j]))
+        IN S[Q]])])
+ApplyGateDense(uu, gg, ws, n) == Bind2(uu, gg, LAMBDA u, g :
+  Bind(SubIdx(ws, n), LAMBDA sub :
+  Bind(MskIdx(ws, n), LAMBDA msk :
+  Bind(PlcIdx(ws, n), LAMBDA plc :
+    Norm([k |-> u.k + g.k, e |-> ApplyRowsDense(u, g, sub, msk, plc, 2^n, 2^Len(ws), Len(u.e[1]))])))))
+ApplyGateSparse(uu, gg, ws, n) == Bind2(uu, gg, LAMBDA u, g :
   Bind(TLCEval([r \in 1..2^Len(ws) |-> TLCEval(RowTerms(g, r, 2^Len(ws)))]), LAMBDA terms :
   Bind(SubIdx(ws, n), LAMBDA sub :
   Bind(MskIdx(ws, n), LAMBDA msk :
   Bind(PlcIdx(ws, n), LAMBDA plc :
     Norm([k |-> u.k + g.k, e |-> ApplyRows(u, terms, sub, msk, plc, 2^n, Len(u.e[1]))]))))))
+
+ApplyGate(u, g, ws, n) == IF H <= 8 THEN ApplyGateDense(u, g, ws, n) ELSE ApplyGateSparse(u, g, ws, n)
 
 \* plain matrix product (square or rectangular), a*b
 MatMul(aa, bb) == Bind2(aa, bb, LAMBDA a, b :
